@@ -90,7 +90,7 @@ def run(F, chk):
             stmt_counts=[(lambda s, body: is_inc(s, body, dropped), 'c_dropped'), (lambda s, body: is_inc(s, body, kept), 'c_kept')],
             per_msg_facts=['dropped_inc', 'c_dropped', 'c_kept'],
             track_msg_events=True)
-        res = lin.run_linearity(b, spec, L1, L2, L7, min_recv=1, min_send=1)
+        res = lin.run_linearity(b, spec, L1, L2, L7, min_recv=1, min_send=1, F=F)
         ex = res.explorer
         cfg = res.cfg
         K4.paths += ex.n_states
@@ -274,7 +274,7 @@ def check_pushes(F, G3):
         E = ExprBuilder(cfg)
         for blk in sites:
             t = blk.term
-            tgt = E.operand(t.args[0])
+            tgt = ExprBuilder(cfg, fold_named=True).operand(t.args[0])     # `let slot = &mut c[kind]; slot.push(f)` pushes into the slot too
             if not any(isinstance(x, tuple) and x[0] == 'call' and x[1].endswith('IndexMut::index_mut') and FKC in (argty(body, cfg, x) or FKC) for x in walk(tgt)):
                 # not a push into a FilterKindContainer slot (plain Vec<Filter>)
                 if 'index_mut' not in show(tgt):
